@@ -632,7 +632,16 @@ impl<T: Model, const N: usize> Model for [T; N] {
         Shape::Array(N, Box::new(T::shape()))
     }
     fn claim(&self, limit: u128) -> u128 {
-        claim_iter(self.len(), self.iter(), limit)
+        // the length of an array is fixed by the type, not declared by the input: only lengths inside
+        // the elements count (nested arrays would otherwise be counted once per level)
+        let mut total = 0u128;
+        for it in self.iter() {
+            total = total.saturating_add(it.claim(limit));
+            if total > limit {
+                break;
+            }
+        }
+        total
     }
     fn valid_bits(&self) -> bool {
         self.iter().all(|x| x.valid_bits())
